@@ -821,8 +821,10 @@ class GK(G):
             for f in order:
                 tgt = ("prop", ("self",), f) if self.chance(60) else ("at", f)
                 if f in k.shadow_fields:
+                    # (the callable differs from instance to instance when it captures an initialiser parameter: a call
+                    # site must run the receiver's own field, not the one it met first)
                     val = ("lambda", [self.fresh("q") for _ in range(METHOD_ARITY[k.shadow_fields[f]])],
-                           ("expr", ("num", float(self.i(40, 49)))))
+                           ("expr", ("var", self.pick(params)) if params and self.chance(60) else ("num", float(self.i(40, 49)))))
                 else:
                     val = self.expr("num", 2)
                 asg = ("expr", ("assign", tgt, val))
@@ -1050,7 +1052,8 @@ class GK(G):
                 # values that may be closures are called before printing
                 return ("print", e)
             if c < 14:
-                out.append(guarded(("print", ("call", ("var", "site1"), [ov]))) if ("m1" not in k.all_methods() or self.returns_closure(k, "m1") or "m1" in k.shadows()) is False else guarded(("expr", ("call", ("var", "site1"), [ov]))))
+                # (a field that shadows m1 holds a lambda returning a number: printable)
+                out.append(guarded(("print", ("call", ("var", "site1"), [ov]))) if ("m1" in k.shadows() or ("m1" not in k.all_methods() or self.returns_closure(k, "m1")) is False) else guarded(("expr", ("call", ("var", "site1"), [ov]))))
             elif c < 24:
                 safe = "m2" in k.all_methods() and not self.returns_closure(k, "m2")
                 call = ("call", ("var", "site2"), [ov, self.expr("num", 1)])
@@ -1159,7 +1162,7 @@ class GI(GK):
              [("m1", [], [("implicit", ("bin", "-", ("prop", ("self",), "f1"), ("var", "k")))]),
               ("m3", [], [("implicit", ("num", 77.0))])], []),
             ("class", "N", "L", ("init", ["v"], [("expr", ("call", ("super", "init"), [("var", "v")])),
-                                                  ("expr", ("assign", ("prop", ("self",), "m3"), ("lambda", [], ("expr", ("num", 55.0)))))]),
+                                                  ("expr", ("assign", ("prop", ("self",), "m3"), ("lambda", [], ("expr", ("bin", "+", ("var", "v"), ("num", 55.0))))))]),
              [("m1", [], [("implicit", ("bin", "*", ("call", ("super", "m1"), []), ("num", 10.0)))])], []),
             ("if", ("bin", "==", ("var", "k"), ("num", 0.0)), [("return", ("var", "L"))], None),
             ("if", ("bin", "==", ("var", "k"), ("num", 1.0)), [("return", ("var", "M"))], None),
@@ -1176,7 +1179,16 @@ class GI(GK):
             cv, ov = self.fresh("C"), self.fresh("o")
             out.append(("let", cv, ("call", ("var", fname), [("num", float(k))])))
             out.append(("let", ov, ("call", ("var", cv), [self.expr("num", 1)])))
-            for _ in range(self.i(1, 3)):
+            # sometimes a second instance of the same class: the sites below then meet two receivers of one class whose
+            # fields (and callable fields) differ
+            ov2 = None
+            if self.chance(50):
+                ov2 = self.fresh("o")
+                out.append(("let", ov2, ("call", ("var", cv), [("num", float(self.i(100, 120)))])))
+            first = ov
+            for _ in range(self.i(1, 3) + (2 if ov2 else 0)):
+                if ov2:
+                    ov = ov2 if ov == first else first
                 c = self.i(0, 4)
                 if c == 4:
                     out.append(("try", [("print", ("call", ("var", "site6"), [("var", ov), self.expr("num", 1)]))],
@@ -1191,7 +1203,9 @@ class GI(GK):
                     out.append(("print", ("call", ("var", "site5"), [("var", ov)])))
             # drop the class and its instance, make garbage so a collection can reuse the addresses
             out.append(("expr", ("assign", ("var", cv), ("nil",))))
-            out.append(("expr", ("assign", ("var", ov), ("nil",))))
+            out.append(("expr", ("assign", ("var", first), ("nil",))))
+            if ov2:
+                out.append(("expr", ("assign", ("var", ov2), ("nil",))))
             out.append(("print", ("call", ("var", "junk"), [("num", float(self.i(1, 40)))])))
         return out
 
